@@ -5,7 +5,7 @@ from .readerlib import both_modes, dump_dict, canon
 
 ID = 'C12'
 TARGETS = ['theories/Properties/C12.vo']
-THEOREMS = []
+THEOREMS = core.theorems_of(ID)
 LEVEL = ('the one-shot reader model is the loop over the incremental functions; proved: fragment-level read loop = flat read (Model/Frag.v), bytes_read grows by '
          'exactly the bytes consumed per call; incremental model tied to parse_header/parse_start/parse_event/parse_metadata by per-call differential runs with '
          'fragmenting readers; oracle on the real library: final incremental game = one-shot game, bytes_read = consumed - 15 after every call, frame count '
